@@ -560,7 +560,7 @@ func VX_C02_ReplyThenLoss(args []int) {
 	vxWaitIdle()
 	vxAssert(vxDone(c1) && vxDone(c2), "both calls complete once the reply and the loss have been processed")
 	vxAssert(len(ch1) == 1 && len(ch2) == 1, "each call is delivered exactly once to its completion channel")
-	vxAssert(vxBlockedThreads() == 0, "nobody left blocked (a second delivery would block or panic)")
+	vxAssert(vxBlockedThreads() == 0, "[C06] nobody left blocked once the input is exhausted (a second delivery would block the reader)")
 	if vxDone(c1) {
 		vxAssert(c1.StatusOK() && string(r1) == "R1", "the answered call keeps the peer's reply (not overwritten by the connection error)")
 	}
